@@ -544,6 +544,19 @@ def run_fixed(desc):
             if got != want:
                 out.violation({'kind': 'fixed', 'mode': mode, 'patterns': pats, 'flags': fnames, 'name': name, 'want': want, 'impl': got,
                                'entry': entry}, bucket=('fixed', tuple(pats), name))
+            # the same list as bytes, given as a list and as a tuple
+            if all(p_.isascii() for p_ in pats) and name.isascii() and 'RAWCHARS' not in fnames:
+                for conv in (list, tuple):
+                    bp = conv(p_.encode() for p_ in pats)
+                    try:
+                        bgot = name.encode() in call_entry(mode, entry, [name.encode()], bp, fl)
+                    except Exception as e:
+                        bgot = '<%s>' % type(e).__name__
+                    out.evaluations += 1
+                    if bgot != want:
+                        out.violation({'kind': 'fixed', 'mode': mode, 'patterns': pats, 'flags': fnames, 'name': name, 'want': want, 'impl': bgot, 'entry': entry,
+                                       'bytes': conv.__name__, 'problem': 'the same list as bytes is answered differently'}, bucket=('fixed-bytes', tuple(pats), name))
+                        break
         out.nontrivial(('fixed', tuple(pats), tuple(fnames), name))
     # SPLIT next to brackets: a `|` splits unless it stands inside a bracket expression that really is one - in path mode a bracket
     # that contains a separator (bare or escaped) is not a bracket expression, so the `|` after it splits
